@@ -781,6 +781,147 @@ def gridflow_task(task, ctx: Ctx):
 
 
 # ----------------------------------------------------------------------
+# part G: options reassigned on a live container == a fresh container built with those options
+# ----------------------------------------------------------------------
+def _snap(w, size):
+    try:
+        canv = w.render(size, False)
+    except NegativeDimension as e:
+        return ("NEG", str(e)[:80]), None
+    except Exception as e:  # noqa: BLE001
+        return ("EXC", exc_site(e)), None
+    return (tuple(tuple(r) for r in cell_map(canv)), canv.cursor), canv
+
+
+def reassign_families(tier):
+    """-> {family: (configs, build(cfg) -> widget, move(widget, a, b), sizes)}; every ordered pair of configs differing in 1 or 2 fields is a case"""
+    P = lambda name, sz=("flow", "box"), nat=(2, 1): Probe(name, sz, nat)  # noqa: E731
+    fam = {}
+    # Padding: align / width setters
+    aligns = ["left", "center", "right", ("relative", 25)]
+    widths = [3, 5, ("relative", 50), ("relative", 100)]
+    pcfg = [(a, w, mn) for a in aligns for w in widths for mn in (None, 4)]
+
+    def b_pad(c):
+        return urwid.Padding(P("k"), align=c[0], width=c[1], min_width=c[2], left=1, right=0)
+
+    def m_pad(w, a, b):
+        if a[0] != b[0]:
+            w.align = b[0]
+        if a[1] != b[1]:
+            w.width = b[1]
+
+    fam["padding"] = ([c for c in pcfg], b_pad, m_pad, [(9,), (4,), (9, 2)], (0, 1))
+    # Overlay: set_overlay_parameters
+    ocfg = [(a, w, va, h, mg) for a in ("left", "center", "right") for w in (3, ("relative", 50)) for va in ("top", "middle", "bottom") for h in (2, ("relative", 50))
+            for mg in ((0, 0, 0, 0), (1, 0, 0, 1))]
+
+    def b_ov(c):
+        return urwid.Overlay(P("k", ("box",)), urwid.SolidFill("."), c[0], c[1], c[2], c[3], left=c[4][0], right=c[4][1], top=c[4][2], bottom=c[4][3])
+
+    def m_ov(w, a, b):
+        w.set_overlay_parameters(b[0], b[1], b[2], b[3], left=b[4][0], right=b[4][1], top=b[4][2], bottom=b[4][3])
+
+    fam["overlay"] = (ocfg, b_ov, m_ov, [(9, 5), (4, 3)], (0, 1, 2, 3, 4))
+    # Columns: contents[i] = (widget, new options); 3 columns
+    copts = [("given", 2), ("given", 4), ("weight", 1), ("weight", 3), ("pack", None)]
+    ccfg = [(o0, o1, o2) for o0 in copts for o1 in copts for o2 in copts[:4:3] + copts[2:3]]
+
+    def c_opt(cols, o):
+        return cols.options(o[0], o[1]) if o[0] != "pack" else cols.options("pack")
+
+    def b_cols(c):
+        ws = [P(f"c{i}", ("flow", "fixed") if o[0] == "pack" else ("flow", "box"), (3, 1 + i % 2)) for i, o in enumerate(c)]
+        cols = urwid.Columns([ws[0]], dividechars=1)
+        cols.contents[:] = [(w_, c_opt(cols, o)) for w_, o in zip(ws, c)]
+        return cols
+
+    def m_cols(w, a, b):
+        for i, (x, y) in enumerate(zip(a, b)):
+            if x != y:
+                child = w.contents[i][0]
+                if (x[0] == "pack") != (y[0] == "pack"):
+                    child = P(f"c{i}", ("flow", "fixed") if y[0] == "pack" else ("flow", "box"), (3, 1 + i % 2))
+                w.contents[i] = (child, c_opt(w, y))
+
+    fam["columns"] = (ccfg, b_cols, m_cols, [(12,), (7,), (3,)], (0, 1, 2))
+    # box Pile: contents[i] = (widget, new options); 3 items
+    popts = [("given", 1), ("given", 3), ("weight", 1), ("weight", 2), ("pack", None)]
+    qcfg = [(o0, o1, ("weight", 1)) for o0 in popts for o1 in popts]
+
+    def p_opt(pile, o):
+        return pile.options(o[0], o[1]) if o[0] != "pack" else pile.options("pack")
+
+    def b_pile(c):
+        ws = [P(f"p{i}", ("flow",) if o[0] == "pack" else ("box",), (2, 1 + i)) for i, o in enumerate(c)]
+        pile = urwid.Pile([("weight", 1, ws[2])])
+        pile.contents[:] = [(w_, p_opt(pile, o)) for w_, o in zip(ws, c)]
+        return pile
+
+    def m_pile(w, a, b):
+        for i, (x, y) in enumerate(zip(a, b)):
+            if x != y:
+                child = w.contents[i][0]
+                if (x[0] == "pack") != (y[0] == "pack"):
+                    child = P(f"p{i}", ("flow",) if y[0] == "pack" else ("box",), (2, 1 + i))
+                w.contents[i] = (child, p_opt(w, y))
+
+    fam["pile"] = (qcfg, b_pile, m_pile, [(4, 9), (4, 5), (4, 2)], (0, 1))
+    # GridFlow: cell_width setter and contents options
+    gcfg = [(cw,) for cw in (1, 2, 3, 5)]
+
+    def b_gf(c):
+        return urwid.GridFlow([P(f"g{i}", ("flow",), (1, 1)) for i in range(4)], c[0], 1, 0, "left")
+
+    def m_gf(w, a, b):
+        w.cell_width = b[0]
+
+    fam["gridflow"] = (gcfg, b_gf, m_gf, [(9,), (4,), (2,)], (0,))
+    return fam
+
+
+def reassign_task(task, ctx: Ctx):
+    family, lo, hi, tier = task
+    env.reset("utf-8")
+    cfgs, build, move, sizes, fields = reassign_families(tier)[family]
+    for a in cfgs[lo:hi]:
+        for b in cfgs:
+            changed = [i for i in fields if a[i] != b[i]]
+            if not 1 <= len(changed) <= 2 or any(a[i] != b[i] for i in range(len(a)) if i not in fields):
+                continue
+            ctx.count("evaluations")
+            case = {"part": "reassign", "family": family, "from": a, "to": b}
+            urwid.CanvasCache.clear()
+            try:
+                live = build(a)
+            except Exception:
+                continue  # (constructing from these options is judged by the other parts)
+            held = [_snap(live, sz) for sz in sizes]  # the canvases stay alive, the cache stays warm
+            try:
+                move(live, a, b)
+            except Exception as e:
+                ctx.violation("reassign-raises", f"C19/reassign/{family}/raises/{exc_site(e)}", case, f"reassigning {a} -> {b} raised {type(e).__name__}: {e}")
+                continue
+            for sz in sizes:
+                got, c1 = _snap(live, sz)
+                try:
+                    fresh = build(b)
+                except Exception:
+                    break
+                want, c2 = _snap(fresh, sz)
+                ctx.obs(family, a, b, sz, got == want)
+                if got != want:
+                    what = "+".join(str(i) for i in changed)
+                    g = got if got[0] in ("EXC", "NEG") else ["".join(chr(ch) if isinstance(at, tuple) else "." for ch, at in r) for r in got[0]]
+                    w_ = want if want[0] in ("EXC", "NEG") else ["".join(chr(ch) if isinstance(at, tuple) else "." for ch, at in r) for r in want[0]]
+                    ctx.violation("reassign-equals-fresh", f"C19/reassign/{family}/fields={what}", dict(case, size=sz),
+                                  f"{family} built with {a} then reassigned to {b}, size {sz}: shows {g}; a fresh one built with {b} shows {w_}")
+                    break
+            else:
+                ctx.distinct("nontrivial", ("reassign", family, a, b))
+            del held
+
+
 def run(tier, R):
     opts = col_options(tier)
     maxL = 3
@@ -827,6 +968,14 @@ def run(tier, R):
     ev = int(R.ctx.counts["evaluations"])
     n_gf = ev - n_col - n_pile - n_pf - n_ov
     R.log(f"gridflow: {n_gf} cases")
+    rt = []
+    for fam_name, (cfgs_, *_rest) in reassign_families(tier).items():
+        for lo in range(0, len(cfgs_), 8):
+            rt.append((fam_name, lo, lo + 8, tier))
+    R.run_tasks(reassign_task, rt, recheck=0.05)
+    n_re = int(R.ctx.counts["evaluations"]) - ev
+    ev = int(R.ctx.counts["evaluations"])
+    R.log(f"reassigned options: {n_re} cases")
     nt = len(R.ctx.sets.get("nontrivial", ()))
     cov = {
         "states": nt,
@@ -841,10 +990,12 @@ def run(tier, R):
         f"{3 if tier == 'quick' else 4} over {len(popts)} options with >= 1 weighted item x focus x rows 1..{maxrows[-1]}; Padding/Filler: "
         f"{len(kinds)} size kinds x 9 alignments x min None/1/3 x margins 0..2 each side x available 1..{12 if tier == 'quick' else 18}; Overlay: "
         "width kind x height kind x 5 aligns x 5 valigns x margins x sizes; GridFlow: 1.."
-        f"{5 if tier == 'quick' else 7} cells x cell width 1..4 x h_sep/v_sep 0..2 x align x available. non-trivial = distinct configurations in which "
+        f"{5 if tier == 'quick' else 7} cells x cell width 1..4 x h_sep/v_sep 0..2 x align x available; reassignment: every ordered pair of option sets differing in one or two fields for Padding "
+        "(align, width setters), Overlay (set_overlay_parameters), Columns and box Pile (contents[i] = (widget, options)) and GridFlow (cell_width): the live container, with its earlier "
+        "canvases alive, must show what a fresh container built with the new options shows, at three sizes. non-trivial = distinct configurations in which "
         "at least one child is visible",
         "exhaustive": True,
-        "parts": {"columns": n_col, "pile": n_pile, "padding_filler": n_pf, "overlay": n_ov, "gridflow": n_gf},
+        "parts": {"columns": n_col, "pile": n_pile, "padding_filler": n_pf, "overlay": n_ov, "gridflow": n_gf, "reassigned": n_re},
     }
     return {
         "coverage": cov,
